@@ -92,14 +92,25 @@ def single_defs(fn_node):
                     counts[x.id] = counts.get(x.id, 0) + 2
         elif isinstance(n, ast.NamedExpr):
             counts[n.target.id] = counts.get(n.target.id, 0) + 2
-    out = {k: v for k, v in vals.items() if counts.get(k) == 1 and k not in params}
+    # an object that is updated in place after its definition does not equal its defining expression
+    mutated = set()
+    for n in walk_no_nested(fn_node):
+        if isinstance(n, ast.Subscript) and isinstance(n.ctx, (ast.Store, ast.Del)) and isinstance(n.value, ast.Name):
+            mutated.add(n.value.id)
+        elif isinstance(n, ast.Call) and isinstance(n.func, ast.Attribute) and isinstance(n.func.value, ast.Name) and \
+                n.func.attr in ('append', 'extend', 'insert', 'pop', 'remove', 'clear', 'sort', 'reverse', 'update',
+                                'resize', 'fill', 'add', 'setdefault'):
+            mutated.add(n.func.value.id)
+        elif isinstance(n, ast.AugAssign) and isinstance(n.target, ast.Subscript) and isinstance(n.target.value, ast.Name):
+            mutated.add(n.target.value.id)
+    out = {k: v for k, v in vals.items() if counts.get(k) == 1 and k not in params and k not in mutated}
     # a local assigned several times, always by the same expression, is as good as one definition
     multi = {}
     for n in walk_no_nested(fn_node):
         if isinstance(n, ast.Assign) and len(n.targets) == 1 and isinstance(n.targets[0], ast.Name):
             multi.setdefault(n.targets[0].id, []).append(n.value)
     for k, vs in multi.items():
-        if k not in out and k not in params and len(vs) > 1 and counts.get(k) == len(vs) and \
+        if k not in out and k not in params and k not in mutated and len(vs) > 1 and counts.get(k) == len(vs) and \
                 len({ntext(v) for v in vs}) == 1:
             out[k] = vs[0]
     return out
